@@ -392,6 +392,13 @@ for _cls, _mod in (('Server', 'server'), ('AsyncServer', 'async_server')):
     # C16: the monitor removes a session from the table only once it is closed
     c.check_before('del self.sockets[s.sid]', 'only-closed-sessions-are-reaped', 's.closed',
                    props=['C16', 'C07'])
+    # C16 / C07: after its visit a session whose heartbeat deadline has passed is closed or closing
+    # (no state of the session - upgrading, upgraded, connected or not - exempts it from the check)
+    c.check_before('if self.service_task_event.wait(timeout=sleep_interval):' if _cls == 'Server'
+                   else 'try: await asyncio.wait_for(self.service_task_event.wait(), '
+                   'timeout=sleep_interval)',
+                   'a-visited-session-past-its-deadline-is-closing',
+                   'implies(ping_expired(s, now), s.closed or s.closing)', props=['C16', 'C07'])
     c.loop(1, index='j', invariants=[
         ('sockets-wf', TABLE_WF),
         ('snapshot-wf', 'all_values(snap, lambda s: sock_wf(s))'),
